@@ -13,7 +13,9 @@ package props
 import (
 	"bytes"
 	"errors"
+	"io"
 	"os"
+	"path/filepath"
 	"runtime"
 	"strconv"
 	"strings"
@@ -27,6 +29,21 @@ import (
 )
 
 var errInjected = errors.New("verif: injected I/O failure")
+
+// Fourth wave: the identity of the injected error is part of the case (seeded change C13-m8: a
+// short read classified as the clean end of a run).  kind "" / g = a generic error value,
+// u = io.ErrUnexpectedEOF itself (what a reader reports when a file ends inside a value),
+// w = an *os.PathError wrapping it (what the os layer hands up).  Every kind is a genuine
+// failure of the operation: the model treats them alike.
+func morassErrOfKind(kind string) error {
+	switch kind {
+	case "u":
+		return io.ErrUnexpectedEOF
+	case "w":
+		return &os.PathError{Op: "read", Path: "verif-injected", Err: io.ErrUnexpectedEOF}
+	}
+	return errInjected
+}
 
 // morassReuseAfterError (environment VERIF_MORASS_REUSE=1; never set by ./check) makes the
 // caller of a concurrent-mode workload carry on after a reported I/O error as the sequential
@@ -64,9 +81,31 @@ type mGor struct {
 
 // mFault: the n-th execution (from 0) of point, counted from the moment the fault became armed
 // (the start of the run for the first one, the firing of its predecessor for the others).
+//
+// point "trunc" (fourth wave) is not an error returned by a hook: at the n-th execution of
+// finalise.seek the harness cuts 1..3 bytes (kind) off the end of the completed run file that is
+// about to be read, so that the gob decoder itself meets a short read.
 type mFault struct {
 	point string
 	n     int
+	kind  string
+}
+
+// parseMFaults: "-" or <point>:<n>[:<kind>](+<point>:<n>[:<kind>])*
+func parseMFaults(fault string) []mFault {
+	var fs []mFault
+	if fault == "-" || fault == "" {
+		return nil
+	}
+	for _, f := range strings.Split(fault, "+") {
+		p := strings.Split(f, ":")
+		mf := mFault{point: p[0], n: hx.Atoi(p[1])}
+		if len(p) > 2 {
+			mf.kind = p[2]
+		}
+		fs = append(fs, mf)
+	}
+	return fs
 }
 
 type mCtl struct {
@@ -82,6 +121,11 @@ type mCtl struct {
 	counts     map[string]int // executions of each point since the armed fault became armed
 	watchdog   time.Duration
 	noSuch     int // lowest actor number that did not arrive within the watchdog (0 = none)
+	// fourth wave: run files in the order of their creation (for the trunc fault)
+	dir        string
+	created    []string
+	cycleStart int // len(created) when the current cycle began (last successful Clear / AutoClear drain)
+	seekInFin  int // finalise.seek executions of the current Finalise
 }
 
 var morassCur atomic.Value // *mCtl (nil pointer when no controller is active)
@@ -109,13 +153,65 @@ func curGID() int64 {
 func newMCtl(fault string) *mCtl {
 	c := &mCtl{notify: make(chan struct{}, 1024), gs: map[int64]*mGor{}, counts: map[string]int{},
 		watchdog: 150 * time.Millisecond}
-	if fault != "-" && fault != "" {
-		for _, f := range strings.Split(fault, "+") {
-			i := strings.IndexByte(f, ':')
-			c.faults = append(c.faults, mFault{f[:i], hx.Atoi(f[i+1:])})
+	c.faults = parseMFaults(fault)
+	return c
+}
+
+// noteCreated (under c.mu): run files that appeared in the directory since the last look.
+func (c *mCtl) noteCreated() {
+	if c.dir == "" {
+		return
+	}
+	ents, err := os.ReadDir(c.dir)
+	if err != nil {
+		return
+	}
+	for _, e := range ents {
+		known := false
+		for _, n := range c.created {
+			if n == e.Name() {
+				known = true
+				break
+			}
+		}
+		if !known {
+			c.created = append(c.created, e.Name())
 		}
 	}
-	return c
+}
+
+// truncate (under c.mu): cut `bytes` off the end of the run file that the current Finalise is
+// about to seek and read (files are read in the order of their registration = creation in
+// sequential mode and when every writer runs to its end at once; otherwise some file of the cycle
+// that has not been read yet: the last one created).
+func (c *mCtl) truncate(bytes int) {
+	c.noteCreated()
+	i := c.cycleStart + c.seekInFin
+	if i >= len(c.created) {
+		i = len(c.created) - 1
+	}
+	if i < 0 {
+		return
+	}
+	p := filepath.Join(c.dir, c.created[i])
+	if st, err := os.Stat(p); err == nil && st.Size() > int64(bytes) {
+		os.Truncate(p, st.Size()-int64(bytes))
+	}
+}
+
+// newCycle is called by the caller goroutine when a Clear (explicit or AutoClear) has succeeded.
+func (c *mCtl) newCycle() {
+	c.mu.Lock()
+	c.noteCreated()
+	c.cycleStart = len(c.created)
+	c.mu.Unlock()
+}
+
+// fired: number of faults of the list that have fired so far.
+func (c *mCtl) fired() int {
+	c.mu.Lock()
+	defer c.mu.Unlock()
+	return c.armed
 }
 
 func (c *mCtl) ping() {
@@ -138,19 +234,43 @@ func (c *mCtl) hook(point string) error {
 		c.mu.Unlock()
 		c.ping()
 	}
+	if point == "write.tempfile" || point == "finalise.wait" || point == "finalise.seek" {
+		c.mu.Lock()
+		switch point {
+		case "write.tempfile":
+			c.noteCreated()
+		case "finalise.wait":
+			c.seekInFin = 0
+		case "finalise.seek":
+			if c.armed < len(c.faults) && c.faults[c.armed].point == "trunc" {
+				k := c.counts["trunc"]
+				c.counts["trunc"]++
+				if k == c.faults[c.armed].n {
+					b := hx.Atoi(c.faults[c.armed].kind)
+					c.truncate(b)
+					c.armed++
+					c.counts = map[string]int{}
+				}
+			}
+			c.seekInFin++
+		}
+		c.mu.Unlock()
+	}
 	if fp, ok := morassFaultPoints[point]; ok {
 		c.mu.Lock()
 		k := c.counts[fp]
 		c.counts[fp]++
 		hit := c.armed < len(c.faults) && fp == c.faults[c.armed].point && k == c.faults[c.armed].n
+		kind := ""
 		if hit {
+			kind = c.faults[c.armed].kind
 			// the next fault of the list becomes armed; its count starts now
 			c.armed++
 			c.counts = map[string]int{}
 		}
 		c.mu.Unlock()
 		if hit {
-			return errInjected
+			return morassErrOfKind(kind)
 		}
 	}
 	return nil
@@ -316,6 +436,7 @@ type mWork struct {
 	fault            string
 	reuse            bool // opts "r": the concurrent caller, too, recovers with Clear after an error
 	abandon          bool // ops end with "u": the caller's last call is CleanUp
+	trace            bool // C13: a last token tr:<ls>.<fired>,... one entry per completed call
 }
 
 func parseMWork(f []string) mWork {
@@ -362,6 +483,8 @@ func morassRunWorkOnce(w mWork, watchdog time.Duration) string {
 		panic("morass: expected exactly one temp dir")
 	}
 	dir := base + "/" + ents[0].Name()
+	c.dir = dir
+	var trace []string
 
 	morassCur.Store(c)
 	defer morassCur.Store((*mCtl)(nil))
@@ -418,6 +541,16 @@ func morassRunWorkOnce(w mWork, watchdog time.Duration) string {
 					}
 				}
 				out = append(out, tok+"/"+strconv.FormatInt(m.Len(), 10)+"/"+strconv.FormatInt(m.Pos(), 10))
+				if (op[0] == 'c' && strings.HasPrefix(tok, "ok/")) || (w.ac && strings.HasPrefix(tok, "eof/")) {
+					c.newCycle()
+				}
+				// the listing of the temporary directory when the call has returned (-1 = the
+				// directory does not exist) and the number of injected faults that have fired
+				ls := -1
+				if ents, err := os.ReadDir(dir); err == nil {
+					ls = len(ents)
+				}
+				trace = append(trace, strconv.Itoa(ls)+"."+strconv.Itoa(c.fired()))
 			}()
 			if stop {
 				break
@@ -480,6 +613,9 @@ func morassRunWorkOnce(w mWork, watchdog time.Duration) string {
 	var outs []string
 	if status == "done" {
 		outs = out
+		if w.trace && len(trace) == len(out) && len(out) > 0 {
+			outs = append(append([]string(nil), out...), "tr:"+strings.Join(trace, ","))
+		}
 	}
 	return strings.TrimSpace(fl + " " + status + " " + strconv.Itoa(disk) + " " + dirExists + " " + after + " " + strings.Join(outs, " "))
 }
